@@ -142,6 +142,8 @@ def attribute(tokeniser: 'Tokeniser') -> GenericAttribute:
         code_int: int = int(code, 16)
     except ValueError:
         raise ValueError(f"'{code}' is not a valid attribute code\n  Must be hexadecimal (e.g., 0x01)") from None
+    if not 0 <= code_int <= _SIZE_B:
+        raise ValueError(f"'{code}' is not a valid attribute code\n  Must fit in one byte (0x00 to 0xff)")
 
     flag = tokeniser().lower()
     if not flag.startswith('0x'):
@@ -150,6 +152,8 @@ def attribute(tokeniser: 'Tokeniser') -> GenericAttribute:
         flag_int: int = int(flag, 16)
     except ValueError:
         raise ValueError(f"'{flag}' is not a valid attribute flag\n  Must be hexadecimal (e.g., 0x40)") from None
+    if not 0 <= flag_int <= _SIZE_B:
+        raise ValueError(f"'{flag}' is not a valid attribute flag\n  Must fit in one byte (0x00 to 0xff)")
 
     data = tokeniser().lower()
     if not data.startswith('0x'):
